@@ -42,7 +42,7 @@ class Kernel:
 
     def __init__(self, pid, spec, theorems, group="Kernels"):
         self.pids = (pid,) if isinstance(pid, str) else tuple(pid)
-        self.pid = "/".join(self.pids)
+        self.pid = "/".join(self.pids) or "no property"
         self.spec, self.theorems, self.group = spec, list(theorems), group
 
     @property
@@ -147,13 +147,13 @@ KERNELS = [
         "ear/fileio/bw64/utils.py", "encode_pcm_samples", "pcm_encode_scaled", "(samples : List Rat) (bitdepth : Nat)",
         "List Rat", names={"samples": ("samples", "vec:rat"), "bitdepth": ("bitdepth", "nat")},
         select=dict(targets=["scaledSamples"], guard=False),
-        notes="slice: scaledSamples (clip, then times 2**(bitdepth-1) - 1), exact"), ["pcm_encode_scaled_eq_model"]),
+        notes="slice: scaledSamples (clip, then times 2**(bitdepth-1) - 1), exact"), ["pcm_encode_scaled_eq_model", "pcm_encode_model"]),
     Kernel("C16", KernelSpec(
         "ear/fileio/bw64/utils.py", "decode_pcm_samples", "pcm_decode_scaled", "(decodedSamples : List Int) (bitdepth : Nat)",
         "List Rat", names={"decodedSamples": ("decodedSamples", "vec:int"), "bitdepth": ("bitdepth", "nat")},
         select=dict(targets=["return"], guard=False, inputs=["decodedSamples"]),
         notes="slice: the returned quotient, decodedSamples (the integer codes) taken as input"),
-        ["pcm_decode_scaled_eq_model"]),
+        ["pcm_decode_scaled_eq_model", "pcm_decode_model"]),
     # 10 — C04
     Kernel("C04", KernelSpec(
         "ear/core/monitor.py", "PeakMonitor.has_overloaded", "has_overloaded", "(peak : List Rat)", "Bool",
@@ -190,11 +190,12 @@ KERNELS += [
         _WR, "Bw64Writer._calc_riff_chunk_size", "calc_riff_chunk_size", "(pos bufLen : Nat)", "Int",
         exprs={"self._buffer.tell()": ("pos", "nat")}, effects=_BUF_SEEK,
         notes="bufLen = length of the buffer (what seek(0, 2) moves to)"), ["calc_riff_chunk_size_eq_model"]),
-    # C11 — ACN channel numbering
-    Kernel("C11", KernelSpec(
+    # ACN channel numbering: belongs to NO property (`to_acn` / `from_acn` are only used by cmdline/ambix_to_bwf.py, not by
+    # the HOA renderer C11 is about): the equalities are kept building with the group, but are nobody's obligation
+    Kernel((), KernelSpec(
         "ear/core/hoa.py", "to_acn", "to_acn", "(n m : Int)", "Int", names={"n": ("n", "int"), "m": ("m", "int")}),
         ["to_acn_eq_model"]),
-    Kernel("C11", KernelSpec(
+    Kernel((), KernelSpec(
         "ear/core/hoa.py", "from_acn", "from_acn", "(acn : Nat)", "Nat × Int", names={"acn": ("acn", "nat")},
         exprs={"np.sqrt(acn).astype(int)": ("(Earverif.Hoa.isqrt acn)", "nat")},
         notes="np.sqrt(acn).astype(int) is mapped to the model's integer square root (exact for acn < 2^52)"),
@@ -564,7 +565,7 @@ _STARTS = [  # lean name, `for` statement prefix
 for ln, pre in _STARTS:
     KERNELS.append(Kernel("C08", KernelSpec(
         _GI, "generate_ids", ln, "", "Nat", select=dict(value_of=pre, arg_of="enumerate", arg_index=1),
-        ret_wrap={}, notes="the start value of `%s, <start>)`" % pre), [ln + "_eq_model"]))
+        ret_wrap={}, notes="the start value of `%s, <start>)`" % pre), [ln + "_eq_model", "ids_starts_generate"]))
 
 for _k in KERNELS[_N0:]:
     _k.group = "KernelsAdm"
@@ -712,7 +713,8 @@ KERNELS += [
         _SI, "_PackAllocator.get_selected_packs_tracks_silent", "silent_tracks", "(tracks : List (Option Nat)) (real : List Nat)", "Int",
         names={"real_track_uids": ("real", "list:id")}, exprs={"obj.audioTrackUIDs": ("tracks", "list:obj:OptNat")},
         select=dict(targets=["silent_tracks"], guard=False, inputs=["real_track_uids", "obj"]),
-        notes="slice: silent_tracks = len(obj.audioTrackUIDs) - len(real_track_uids)"), ["silent_tracks_eq_model"]),
+        notes="slice: silent_tracks = len(obj.audioTrackUIDs) - len(real_track_uids)"),
+        ["silent_tracks_eq_model", "silent_tracks_allocProblem"]),
     Kernel("C06", KernelSpec(
         _SI, "_select_programme", "select_programme", "(ps : List Earverif.Adm.Programme) (given : Option Nat)", "Option Nat",
         optionals=[Optional_("audio_programme", "given", "p", {"audio_programme": ("(some p)", "option:id")})],
@@ -1025,10 +1027,41 @@ def refusals(groups=None):
     return out
 
 
+# The size of the obligation list is pinned: a kernel that is dropped (or a property that loses one) must be a visible edit
+# of these tables, never a silently shorter list.  Per group: number of kernels; per property: number of kernels that
+# carry its id and number of distinct theorems they contribute.
+EXPECTED = {"Kernels": 65, "KernelsSel": 19, "KernelsAdm": 25}  # 109 kernels, two of them (to_acn, from_acn) of no property
+EXPECTED_PID = {  # property: (kernels, distinct theorems)
+    "C01": (6, 6), "C02": (7, 5), "C03": (4, 5), "C04": (6, 4), "C05": (1, 1), "C06": (7, 9), "C07": (4, 5), "C08": (25, 27),
+    "C09": (9, 11), "C10": (3, 4), "C11": (1, 1), "C12": (1, 1), "C13": (7, 9), "C14": (11, 14), "C15": (5, 5), "C16": (2, 4),
+    "C17": (9, 11), "C18": (7, 7), "C19": (6, 9), "C20": (1, 1),
+}
+
+
+def _counts():
+    per_group = {g: sum(1 for k in KERNELS if k.group == g) for g in GROUPS}
+    per_pid = {}
+    for k in KERNELS:
+        for p in k.pids:
+            n, th = per_pid.get(p, (0, set()))
+            per_pid[p] = (n + 1, th | set(k.theorems))
+    return per_group, {p: (n, len(th)) for p, (n, th) in per_pid.items()}
+
+
+def check_counts():
+    per_group, per_pid = _counts()
+    if per_group != EXPECTED:
+        raise AssertionError("kernel count per group is %r, expected %r (harness/kernels.py EXPECTED)" % (per_group, EXPECTED))
+    if per_pid != EXPECTED_PID:
+        diff = {p: (per_pid.get(p), EXPECTED_PID.get(p)) for p in set(per_pid) | set(EXPECTED_PID) if per_pid.get(p) != EXPECTED_PID.get(p)}
+        raise AssertionError("kernels/theorems per property differ from EXPECTED_PID (found, expected): %r" % (diff,))
+
+
 def obligations(pid):
     """(proof module of the property's group, theorem names); the following extract()/status() calls of this process
     are then about that group only."""
     global _ACTIVE
+    check_counts()
     th = [THM_NS + t for k in KERNELS if pid in k.pids for t in k.theorems]
     th = list(dict.fromkeys(th))
     if not th:
